@@ -49,7 +49,8 @@ def _worker(job):
     for sname in snames:
         pen = oracle.SCHEMES[sname]
         for pivot in pivots:
-            w = E2EWorld(proj, pivot)
+          for with_cplex in ((False, True) if prop in CPLEX_PROPS and pivot == "first" else (False,)):
+            w = E2EWorld(proj, pivot, cplex=with_cplex)
             ds = w.dataset(raws)
             sch = w.scheme(pen)
             complete = bool(w.call(ds, "is_complete"))
@@ -63,6 +64,74 @@ def _worker(job):
             except Unsupported as exc:
                 raise AnalysisError(f"end-to-end evaluation ({prop}, dataset {dname}, scheme {sname}): unsupported "
                                     f"construct at line {getattr(exc.node, 'lineno', '?')}: {exc}")
+    return out
+
+
+# properties whose statement covers the CPLEX back-end: evaluated a second time with a stand-in CPLEX API present
+CPLEX_PROPS = ("C04", "C05", "C06")
+
+
+# one world, one set of algorithm / dataset / scheme objects, several calls in a row: what a call returns must not
+# depend on what the same objects were used for before (and what an earlier call returned must not change afterwards)
+HISTORY = [("five-cycle-ties", "unifying-p0.5"), ("five-cycle-ties", "generic"), ("cycle3", "unifying"),
+           ("two-empties", "unifying"), ("two-empties", "unifying", "remove_empty_rankings"),
+           ("tie3", "unifying"), ("later-id-first", "generic"), ("single", "unifying"),
+           ("four-mixed", "generic"), ("four-mixed", "generic", ("remove_elements", {4})), ("six-mixed", "unifying-x3"),
+           ("six-mixed", "unifying"), ("cycle3", "unifying")]
+QUICK_HISTORY = HISTORY[:8]
+
+
+def _history_worker(job):
+    overlay, prop, seq, with_cplex = job
+    proj = Project(overlay=overlay)
+    w = E2EWorld(proj, "first", cplex=with_cplex)
+    w.kept = []
+    dss, schs = {}, {}
+    out: List[Tuple[str, str]] = []
+    fn = CHECKS[prop]
+    current = {}
+    for k, step in enumerate(seq):
+        dname, sname = step[0], step[1]
+        op = step[2] if len(step) > 2 else None
+        pen = oracle.SCHEMES[sname]
+        if dname not in dss:
+            dss[dname] = w.dataset(oracle.DATASETS[dname])
+            current[dname] = [[set(b) for b in r] for r in oracle.DATASETS[dname]]
+        if sname not in schs:
+            schs[sname] = w.scheme(pen)
+        ds, sch = dss[dname], schs[sname]
+        if op == "remove_empty_rankings":           # the shared Dataset object is modified in place through its own API
+            w.call(ds, "remove_empty_rankings")
+            current[dname] = [r for r in current[dname] if r]
+        elif isinstance(op, tuple) and op[0] == "remove_elements":
+            w.call(ds, "remove_elements", {w.element(x) for x in op[1]})
+            current[dname] = [r2 for r2 in ([b - set(op[1]) for b in r if b - set(op[1])] for r in current[dname]) if r2]
+        raws = current[dname]
+        complete = bool(w.call(ds, "is_complete"))
+        before = "; ".join("/".join(str(x) for x in st_) for st_ in seq[:k]) or "nothing"
+        try:
+            for key, problem in fn(w, ds, sch, _norm(raws), pen, sname, complete, "first"):
+                out.append((f"history:{key}", None if problem is None else
+                            f"call #{k + 1} on the same objects (before it: {before}): dataset {dname} {raws}, scheme {sname}: {problem}"))
+        except AbsRaise as exc:
+            out.append((f"history:{prop}/E:evaluation", f"call #{k + 1} (before it: {before}): dataset {dname}, scheme {sname}: raised {exc.exc_name}"))
+        except Unsupported as exc:
+            raise AnalysisError(f"end-to-end history ({prop}, step {k + 1}: dataset {dname}, scheme {sname}): unsupported "
+                                f"construct at line {getattr(exc.node, 'lineno', '?')}: {exc}")
+    # what earlier calls returned is read again now
+    for label, amo, c, raws_, pen_, when in w.kept:
+        try:
+            rep = _score_of(w, c)
+        except (AbsRaise, Unsupported) as exc:
+            out.append((f"history:late-read:{label}", f"reading the score of the consensus of {when} again: {exc}"))
+            continue
+        bad = None
+        for r in c.attrs["_consensus_rankings"]:
+            true = oracle.score(_raw(w, r), raws_, pen_)
+            if rep is None or not isinstance(rep, (int, float)) or abs(true - rep) > EPS:
+                bad = bad or (f"the consensus returned for {when} (at_most_one={amo}) now reports {rep!r} after the later "
+                              f"calls; its ranking {_raw(w, r)} scores {true}")
+        out.append((f"history:late-read:{label}", bad))
     return out
 
 
@@ -141,10 +210,14 @@ def _c04(w, ds, sch, raws, pen, sname, complete, pivot):
             continue
         for amo in (True, False):
             st, c = w.try_compute(alg, ds, sch, amo)
+            if st != "ok" and c == "IncompatibleArgumentsException" and not amo and "CPLEX" in label:
+                continue        # documented refusal: the optimised CPLEX model returns a single ranking (C05/X6)
             if st != "ok":
                 yield f"reported-score:{label}", f"at_most_one={amo}: raised {c}"
                 continue
             rep = _score_of(w, c)
+            if hasattr(w, "kept"):
+                w.kept.append((label, amo, c, raws, pen, f"dataset {raws}, scheme {sname}"))
             bad = None
             if rep is None or not isinstance(rep, (int, float)) or rep < 0:
                 bad = f"at_most_one={amo}: reported score {rep!r}"
@@ -156,9 +229,15 @@ def _c04(w, ds, sch, raws, pen, sname, complete, pivot):
             yield f"reported-score:{label}", bad
 
 
+def _canon(r):
+    return tuple(frozenset(b) for b in r)
+
+
 def _c05(w, ds, sch, raws, pen, sname, complete, pivot):
     best, argmin = oracle.optimum(raws, pen)
-    for label, alg, kind in _cfg(w, ("ExactAlgorithmPulp()", "ExactAlgorithm()")):
+    for label, alg, kind in configurations(w):
+        if not label.startswith("Exact"):
+            continue
         st, c = w.try_compute(alg, ds, sch, True)
         if st != "ok":
             yield f"optimum:{label}", f"raised {c}"
@@ -166,6 +245,25 @@ def _c05(w, ds, sch, raws, pen, sname, complete, pivot):
         r = _raw(w, c.attrs["_consensus_rankings"][0])
         s = oracle.score(r, raws, pen)
         yield f"optimum:{label}", None if abs(s - best) <= EPS else f"returns {r} scoring {s}; the optimum is {best} ({argmin[0]})"
+        if "optimize=False" in label or "ForPaperOptim1" in label:
+            # all optimal consensuses requested
+            st, c = w.try_compute(alg, ds, sch, False)
+            if st != "ok":
+                yield f"all-optima:{label}", f"all optimal rankings requested: raised {c}"
+                continue
+            got = [_raw(w, r_) for r_ in c.attrs["_consensus_rankings"]]
+            bad = None
+            for r_ in got:
+                s = oracle.score(r_, raws, pen)
+                if abs(s - best) > EPS:
+                    bad = bad or f"all optimal rankings requested: {r_} (score {s}) is returned, the optimum is {best}"
+            if bad is None and label.startswith("ExactAlgorithmCplex(optimize=False)"):
+                gs, ws = {_canon(x) for x in got}, {_canon(x) for x in argmin}
+                if gs != ws or len(got) != len(gs):
+                    miss = [list(map(set, x)) for x in ws - gs][:1]
+                    bad = (f"all optimal rankings requested: {len(got)} ranking(s) returned ({len(gs)} distinct), the "
+                           f"{len(ws)} minimisers are expected" + (f"; missing e.g. {miss[0]}" if miss else ""))
+            yield f"all-optima:{label}", bad
 
 
 def _partition(w, part) -> List[set]:
@@ -184,7 +282,7 @@ def _c06(w, ds, sch, raws, pen, sname, complete, pivot):
     elif not any(oracle.respects(c, part) for c in argmin):
         bad = f"ParCons partition {part}: none of the {len(argmin)} optimal consensuses (score {best}) respects it, e.g. {argmin[0]}"
     yield "parcons-partition:admits-an-optimum", bad
-    for label, alg, kind in _cfg(w, ("ParCons()", "ParCons(KwikSortRandom(), bound_for_exact=0)")):
+    for label, alg, kind in [t for t in configurations(w) if t[0].startswith("ParCons")]:
         st, c = w.try_compute(alg, ds, sch, True)
         if st != "ok":
             yield f"parcons:{label}", f"raised {c}"
@@ -205,7 +303,7 @@ def _c06(w, ds, sch, raws, pen, sname, complete, pivot):
             bad = f"consensus {r} does not respect the ParCons partition {part}"
         elif wp != part:
             bad = f"reported weak partitioning {wp} differs from parcons_partition {part}"
-        elif label == "ParCons()" and flag is not True:
+        elif label.startswith("ParCons()") and flag is not True:
             bad = "no component was delegated (default bound) but the consensus is not flagged optimal"
         yield f"parcons:{label}", bad
 
@@ -402,9 +500,9 @@ QUICK_DATASETS = {
     "C02": ["six-mixed", "ties-incomplete", "sparse-components", "strings", "with-empty"],
     "C13": ["six-mixed", "ties-incomplete", "sparse-components", "four-mixed", "big-bucket"],
     "C04": ["four-mixed", "later-id-first", "ties-incomplete", "sparse-components", "with-empty"],
-    "C05": ["five-cycle-ties", "cycle3", "ties-incomplete", "sparse-components", "later-id-first", "head-merge", "big-bucket"],
-    "C06": ["five-cycle-ties", "cycle3", "sparse-components", "digit-component", "four-mixed", "ties-incomplete", "big-bucket"],
-    "C07": ["five-cycle-ties", "head-merge", "two-opposed", "ties-incomplete", "four-mixed", "cycle3", "sparse-components"],
+    "C05": ["branching-components", "five-branching", "five-cycle-ties", "cycle3", "ties-incomplete", "sparse-components", "later-id-first", "head-merge", "big-bucket"],
+    "C06": ["branching-components", "five-branching", "five-cycle-ties", "cycle3", "sparse-components", "digit-component", "four-mixed", "ties-incomplete", "big-bucket"],
+    "C07": ["branching-components", "five-branching", "five-cycle-ties", "head-merge", "two-opposed", "ties-incomplete", "four-mixed", "cycle3", "sparse-components"],
     "C08": ["six-mixed", "later-id-first", "four-mixed", "big-bucket", "ties-incomplete"],
     "C09": ["six-mixed", "later-id-first", "ties-incomplete", "sparse-components", "big-bucket"],
     "C10": ["six-mixed", "unanimous", "ties-incomplete", "two-opposed", "four-mixed"],
@@ -429,8 +527,11 @@ def check(res: Result, proj: Project, prop: str, thorough: bool, rule: str = Non
     jobs = [(proj.overlay, prop, d, oracle.DATASETS[d], snames, pivots) for d in dnames]
     agg: Dict[str, List[str]] = {}
     counts: Dict[str, int] = {}
-    with ProcessPoolExecutor(max_workers=min(len(jobs), os.cpu_count() or 1)) as ex:
-        for out in ex.map(_worker, jobs):
+    with ProcessPoolExecutor(max_workers=min(len(jobs) + 2, os.cpu_count() or 1)) as ex:
+        hists = [ex.submit(_history_worker, (proj.overlay, prop, HISTORY if thorough else QUICK_HISTORY, wc))
+                 for wc in ((False, True) if prop in CPLEX_PROPS else (False,))]
+        outs = list(ex.map(_worker, jobs)) + [h.result() for h in hists]
+        for out in outs:
             for key, problem in out:
                 agg.setdefault(key, [])
                 counts[key] = counts.get(key, 0) + 1
